@@ -87,13 +87,17 @@ pub fn net() -> &'static Net {
                 Ok(l) => { rt.spawn(async move { loop { if let Ok((mut s, _)) = l.accept().await { let ev = ev.clone(); let b = bh.lock().unwrap().clone(); tokio::spawn(async move {
                         let mut buf = vec![0u8; 4096];
                         if starttls {
+                            // "slam": the peer closes at once, without reading (a balancer with no backend); "greet": it speaks first (an
+                            // unsolicited notification under id 0) and then behaves - neither is an answer to the StartTLS request
+                            if b.answer == "slam" { ev.lock().unwrap().push("clear:none".into()); return; }
+                            if b.answer == "greet" { let _ = s.write_all(&enc(&message(0, c(TagClass::Application, 24, vec![enum_tag(0), octets(b""), octets(b"hello"), p(TagClass::Context, 10, b"1.3.6.1.4.1.1466.20036")]), None))).await; tokio::time::sleep(Duration::from_millis(30)).await; }
                             let n = match tokio::time::timeout(Duration::from_millis(1500), s.read(&mut buf)).await { Ok(Ok(n)) => n, _ => 0 };
                             if n == 0 { ev.lock().unwrap().push("clear:none".into()); return; }
                             ev.lock().unwrap().push(format!("clear:{}", if classify(&buf[..n]) == "starttls" { "starttls-request" } else { "other-ldap" }));
                             let id = first_id(&buf[..n]);
                             let mut out: Vec<u8> = vec![];
                             match b.answer.as_str() {
-                                "success" => out.extend(ext_response(id, 0)),
+                                "success" | "greet" => out.extend(ext_response(id, 0)),
                                 "garbage" => out.extend([0x30, 0x03, 0x02, 0x01, 0x05, 0xff, 0xff, 0xff]),
                                 "close" => { return; }
                                 "otherid" => { out.extend(enc(&message(0, c(TagClass::Application, 24, vec![enum_tag(0), octets(b""), octets(b"note"), p(TagClass::Context, 10, b"1.3.6.1.4.1.1466.20036")]), None))); out.extend(ext_response(id, 0)); }
@@ -101,7 +105,7 @@ pub fn net() -> &'static Net {
                             }
                             out.extend(&b.extra);
                             if s.write_all(&out).await.is_err() { return; }
-                            if !(b.answer == "success" || b.answer == "otherid" || b.answer == "rc0") {
+                            if !(b.answer == "success" || b.answer == "otherid" || b.answer == "rc0" || b.answer == "greet") {
                                 // no TLS follows: whatever else arrives in the clear is logged
                                 loop { match tokio::time::timeout(Duration::from_millis(1500), s.read(&mut buf)).await { Ok(Ok(n)) if n > 0 => ev.lock().unwrap().push(format!("clear:{}", if buf[0] == 0x16 { "tls-hello" } else { "other-ldap" })), _ => return } }
                             }
@@ -231,7 +235,7 @@ pub fn run_setup(lane: &str, args: &[&str]) -> (String, Option<String>) {
 pub fn gen_tls(rng: &mut Rng, n: usize, out: &mut Vec<String>) {
     let mut all = vec![];
     for scheme in ["ldaps", "ldap"] { for starttls in [0, 1] { for noverify in [0, 1] { for connector in ["none", "ca"] {
-        for answer in ["success", "rc2", "rc53", "rc256", "rc4096", "garbage", "close", "otherid"] { for cert in ["trusted", "selfsigned", "wrongname"] { for hs in [1, 0] {
+        for answer in ["success", "rc2", "rc53", "rc256", "rc4096", "garbage", "close", "otherid", "slam", "greet"] { for cert in ["trusted", "selfsigned", "wrongname"] { for hs in [1, 0] {
             if scheme == "ldaps" && answer != "success" { continue; }
             if scheme == "ldap" && starttls == 0 && (answer != "success" || cert != "trusted" || hs == 0) { continue; }
             for extra in ["-", "forged"] { if extra == "forged" && !(scheme == "ldap" && starttls == 1) { continue; }
@@ -241,6 +245,12 @@ pub fn gen_tls(rng: &mut Rng, n: usize, out: &mut Vec<String>) {
     let stride = (all.len() / n.max(1)).max(1);
     let k0 = rng.below(stride as u64) as usize;
     for c in all.iter().skip(k0).step_by(stride) { out.push(c.clone()); }
+    // always there, whatever the stride: the peer that closes at once and the peer that speaks first (F23 is a race inside the client: several
+    // instances each)
+    for fixed in ["tls ldap 1 0 ca slam trusted 1 -", "tls ldap 1 1 none slam selfsigned 1 -", "tls ldap 1 0 none slam trusted 0 -",
+                  "tls ldap 1 0 ca greet trusted 1 -", "tls ldap 1 1 none greet selfsigned 1 -", "tls ldap 1 1 none greet wrongname 1 -", "tls ldap 1 0 ca greet trusted 0 -", "tls ldap 1 0 ca greet trusted 1 forged"] {
+        if !out.iter().any(|x| x == fixed) { out.push(fixed.to_string()); }
+    }
 }
 
 pub fn run_tls(args: &[&str]) -> (String, Option<String>) {
@@ -293,7 +303,7 @@ pub fn run_tls(args: &[&str]) -> (String, Option<String>) {
         if res.contains("forged-reply-accepted") { oracle = Some("cleartext bytes injected after the StartTLS response were interpreted as an LDAP response inside the session".to_string()); }
         let accepts_invalid = if connector == "ca" { false } else { noverify };
         let trusted = cert == "trusted" && connector == "ca";
-        let must_fail = !hs || (scheme == "ldap" && answer != "success") && answer != "otherid" && answer != "rc0" || (!trusted && !accepts_invalid);
+        let must_fail = !hs || (scheme == "ldap" && answer != "success") && answer != "otherid" && answer != "rc0" && answer != "greet" || (!trusted && !accepts_invalid);
         if must_fail && res.starts_with("ok") { oracle = Some(format!("establishment must fail here (answer={}, cert={}, handshake_ok={}, verify_disabled={}) but a handle was returned", answer, cert, hs, accepts_invalid)); }
     }
     if res == "hang" { oracle.get_or_insert("connection establishment never returned (no connection timeout set)".to_string()); }
